@@ -14,13 +14,45 @@ def _init(repo_root):
         pass
 
 
-def pmap(fn, items, repo_root, workers=16, chunksize=None):
+class _Timed:
+    """Picklable wrapper: fn(job) under a per-job wall-clock budget; a job that does not finish yields on_timeout(job, s)."""
+    def __init__(self, fn, seconds, on_timeout):
+        self.fn, self.seconds, self.on_timeout = fn, seconds, on_timeout
+
+    def __call__(self, job):
+        try:
+            return with_timeout(self.fn, job, self.seconds)
+        except JobTimeout:
+            return self.on_timeout(job, self.seconds)
+
+
+def pmap(fn, items, repo_root, workers=16, chunksize=None, job_timeout=None, on_timeout=None):
+    """job_timeout / on_timeout: every job runs under its own alarm, so a hang of the code under check ends as a reported
+    failure of that job (never as a check that has to be killed)."""
     if not items:
         return []
+    if job_timeout is not None:
+        fn = _Timed(fn, job_timeout, on_timeout)
     workers = min(workers, len(items))
     ctx = mp.get_context('fork')
     with ctx.Pool(workers, initializer=_init, initargs=(repo_root,)) as pool:
         return pool.map(fn, items, chunksize=chunksize or max(1, len(items) // (workers * 4)))
+
+
+def timeout_failure(prop, describe=repr, replay=None):
+    """Standard on_timeout for jobs that return a list of failure dicts."""
+    return _TimeoutFailure(prop, describe, replay)
+
+
+class _TimeoutFailure:
+    def __init__(self, prop, describe, replay):
+        self.prop, self.describe, self.replay = prop, describe, replay
+
+    def __call__(self, job, seconds):
+        d = self.describe(job)
+        return [{'what': f"no result within {seconds}s (the code under check did not terminate) for {d[:300]}",
+                 'class': f"{self.prop.lower()}-timeout", 'input': {'job': d[:2000]},
+                 'replay': self.replay(job) if self.replay else None}]
 
 
 class JobTimeout(BaseException):
